@@ -11,7 +11,7 @@ SHARDS = {'quick': 16, 'thorough': 64}
 TIMEOUT = {'quick': 1200, 'thorough': 7200}
 MUST_HIT = ['EarlierObject.rechecked', 'QueryRef.select', 'QueryRef.navigate', 'QueryRef.subtype', 'QueryRef.two-hop',
             'QueryRef.order_by-with-ties', 'QueryRef.set-valued-start', 'QueryRef.filter-covers-identifier', 'QueryRef.first-last', 'QueryRef.query-repeated',
-            'QueryRef.attribute-assigned-between-queries']
+            'QueryRef.attribute-assigned-between-queries', 'QueryRef.random-schema']
 MUST_REACH = ['xtuml/meta.py:apply_query_operators', 'xtuml/meta.py:WhereEqual.__call__',
               'xtuml/meta.py:OrderBy.__call__', 'xtuml/meta.py:MetaClass.select_one',
               'xtuml/meta.py:MetaClass.select_many', 'xtuml/meta.py:MetaClass.navigate',
@@ -20,9 +20,12 @@ MUST_REACH = ['xtuml/meta.py:apply_query_operators', 'xtuml/meta.py:WhereEqual._
               'xtuml/meta.py:NavChain.__getitem__']
 ANCHORS = MUST_REACH + ['xtuml/meta.py:QuerySet.first']
 MIN_NONTRIVIAL = {'quick': 3000, 'thorough': 3000}
-RULE = ('states: a seven-class schema (1:M, reflexive with phrases, association class, reflexive '
+RULE = ('states: three of four over a seven-class schema (1:M, reflexive with phrases, association class, reflexive '
         'association class, subtype/supertype) built through the API or the loader, populated by a '
         'random C02-style history (creation with small value domains so that ties and matches '
+        'occur; every fourth state over a random schema of vf/sqlgen with up to five associations of every shape, compound '
+        'keys, key chains and shared referential attributes - a query that would read a referential value two '
+        'disagreeing partners define is skipped and counted; '
         'occur, relate, unrelate, delete), optionally serialized and loaded back; queries: '
         'select_many/one/any with up to three operators out of where_eq (1-3 attributes, mixed '
         'spellings, referential ones), dict filters, lambdas, order_by / reverse_order_by on 1-2 '
@@ -150,9 +153,14 @@ def reload(b):
 
 # -- naive evaluation ---------------------------------------------------------
 
+class Ambiguous(Exception):
+    '''a referential attribute formalising two associations whose partners disagree: either value may be read'''
+
+
 def value(sh, h, attr):
     vals = sh.read(h, attr)
-    assert len(vals) == 1, vals
+    if len(vals) != 1:
+        raise Ambiguous()
     return next(iter(vals))
 
 
@@ -278,11 +286,19 @@ def gen_chain(rng, sch, start_kind, length):
 
 
 def run_queries(ctx, rng, b, handles, sch, nq, state_key):
+    recent = []
+    for _ in range(nq):
+        try:
+            one_query(ctx, rng, b, handles, sch, state_key, recent)
+        except Ambiguous:
+            ctx.count('queries_skipped_ambiguous_referential_value')
+
+
+def one_query(ctx, rng, b, handles, sch, state_key, recent):
     import xtuml
     sh = b.shadow
     m = b.m
-    recent = []
-    for _ in range(nq):
+    for _ in range(1):
         k = rng.random()
         stats = {}
         if rng.random() < 0.1:
@@ -390,6 +406,8 @@ def run_queries(ctx, rng, b, handles, sch, nq, state_key):
                 continue
             ctx.hit('QueryRef.navigate')
         else:
+            if not getattr(sch, 'fixed', False):
+                continue
             live = [h for h in handles['A'] if sh.alive[h]]
             if xtuml.navigate_subtype(None, 4) is not None:
                 ctx.violation('subtype/from-nothing', 'navigate_subtype(None, 4) is not None', case=dict(query='none'))
@@ -437,13 +455,27 @@ def run_queries(ctx, rng, b, handles, sch, nq, state_key):
                  sample=dict(query=q, expected=want))
 
 
+def random_schema(rng, i):
+    '''a schema of vf/sqlgen (several associations of every shape at once), types spelled in upper case'''
+    from vf import sqlgen
+    while True:
+        s = sqlgen.random_schema(rng, hostile_names=(i % 8 == 3), max_classes=5)
+        if s.rops:
+            return Schema([(k, [(a, ty.upper()) for a, ty in at]) for k, at in s.classes], s.rops, s.uniques)
+
+
 def run(ctx):
-    sch = schema()
+    fixed = schema()
+    fixed.fixed = True
     rng = ctx.rng
     nstates = ctx.share(3200 if ctx.tier == 'quick' else 64000)
     nq = 60 if ctx.tier == 'quick' else 120
     for i in range(nstates):
         route = 'loader' if i % 3 == 0 else 'api'
+        sch = fixed
+        if i % 4 == 3:
+            sch = random_schema(rng, i)
+            ctx.hit('QueryRef.random-schema')
         b, handles = populate(ctx, rng, sch, route)
         state_key = (ctx.shard, i)
         diffs = b.compare(queries=False)
@@ -451,6 +483,7 @@ def run(ctx):
             ctx.violation('state/' + diffs[0][0], 'state not as modelled: %s' % diffs[0][1])
             continue
         if i % 4 == 1:
+            # (always the fixed schema: its keys are ids, so the links survive the text)
             b2 = reload(b)
             if b2 is None or b2.compare(queries=False):
                 ctx.violation('state/reloaded-differs',
